@@ -29,6 +29,9 @@ type Prog struct {
 	funcs map[string]*ssa.Function // canonical short name -> function
 	// RepoFuncs is every function (incl. anonymous) whose package is in the module.
 	RepoFuncs    []*ssa.Function
+	// AllFuncs: RepoFuncs plus the helpers the pinned tree did not have, which the rule tables see
+	// only as part of their callers (absorb.go); the engines that must cover every function use this.
+	AllFuncs []*ssa.Function
 	byPkg        map[string]*packages.Package
 	fieldWriters map[string]map[*ssa.Function]bool // tn.field -> functions that may (transitively) store it
 	lineWritesBy map[*ssa.Function][]ssa.Instruction
@@ -141,7 +144,21 @@ func Load(dir, goos, goarch string, overlay map[string][]byte) (*Prog, error) {
 	}
 	sort.Slice(P.RepoFuncs, func(i, j int) bool { return fnName(P.RepoFuncs[i]) < fnName(P.RepoFuncs[j]) })
 	progOf[prog] = P
+	P.AllFuncs = P.RepoFuncs
 	resolveRenames(P)
+	if len(isAbsorbed) > 0 {
+		var keep []*ssa.Function
+		for _, f := range P.AllFuncs {
+			top := f
+			for top.Parent() != nil {
+				top = top.Parent()
+			}
+			if !isAbsorbed[top] {
+				keep = append(keep, f)
+			}
+		}
+		P.RepoFuncs = keep
+	}
 	return P, nil
 }
 
